@@ -14,9 +14,13 @@ pub const RULE: &str = "cases = graphs accepted by build_sampler, half arbitrary
 
 pub fn gen_case(t: &mut Tape, tier: Tier) -> Option<G> {
     if t.bool() {
-        let g = gen::gen_any_graph(t, tier);
+        let mut g = gen::gen_any_graph(t, tier);
         if g.nedges() > tier.pick(7, 9) {
             return None;
+        }
+        if t.chance(0.2) {
+            // a barely convergent subgraph: omega a few ulps (or 1/64, 1e-6, ...) above zero
+            gen::push_to_boundary(t, &mut g);
         }
         Some(g)
     } else {
